@@ -1,8 +1,9 @@
 (* Properties_C06.v — C06: per-connection buffering is bounded by the configured limits.
-   `retained` (M_Receive.v) is the quantity the property bounds.  Proved so far: the request line
-   never holds more than max_method + 1 / max_uri + 1 bytes in any state reachable by parsing any
-   bytes (P_C06.v); the header/body/chunk components are decided against the code by the
-   adversarial-stream correspondence, which measures `retained` on the real members. *)
+   `retained` (M_Receive.v) is the quantity the property bounds.  Proved: the request line never holds more
+   than max_method + 1 / max_uri + 1 bytes, a header line never more than the line limit + 1, a header block
+   (fields stored + line in progress) never more than hd_bound, in any state reachable by parsing any bytes in
+   any pieces (P_C06.v); the body/chunk components are decided against the code by the adversarial-stream
+   correspondence, which measures `retained` on the real members. *)
 From Via Require Import M_Char M_Parse M_Receive P_C06.
 Local Open Scope N_scope.
 
@@ -13,4 +14,20 @@ Proof. exact rl_parse_bounded. Qed.
 Example C06_example_init : forall L, rl_bounded L rl_init.
 Proof. intros L. unfold rl_bounded, nlen. cbn. repeat split; intros; lia. Qed.
 
+(* a header line: name and value never hold more than the line limit plus one byte, whatever arrives *)
+Theorem C06_field_line_bounded : forall L f buf, fl_inv L f ->
+  nlen (fl_name (fst (fst (fl_parse L f buf)))) + nlen (fl_value (fst (fst (fl_parse L f buf)))) <= max_line L + 1.
+Proof. intros L f buf H. apply fl_inv_bound, fl_parse_inv, H. Qed.
+
+(* a header block (or the trailers of a chunk): over any sequence of reads of any bytes - endless lines, repeated
+   names, folded lines, empty names - the stored fields plus the line in progress never exceed
+   2 * (MAX_HEADER_LENGTH + MAX_LINE_LENGTH + 1) + MAX_LINE_LENGTH + 1 bytes *)
+Theorem C06_header_block_bounded : forall L frags, hd_retained (hd_feed L hd_init frags) <= hd_bound L.
+Proof. intros L frags. apply hd_feed_bounded, hd_inv_init. Qed.
+
+Example C06_example_bound_value : hd_bound (mk_limits 8190 8 100 65534 1024 8 65534 65534 false) = 134143.
+Proof. reflexivity. Qed.
+
 Print Assumptions C06_request_line_bounded.
+Print Assumptions C06_field_line_bounded.
+Print Assumptions C06_header_block_bounded.
